@@ -4,17 +4,21 @@ C04 proofs — structural invariants (regMem, snapPar, rootPar, createdLst): pre
 import TbbVerif.Proofs.C04.StructC
 
 namespace TbbVerif.C04
-variable {cfg : Cfg} {reg : List Nat} {s : St} {t : Nat}
+variable {cfg : Cfg} {r : List RF} {reg : List Nat} {s : St} {t : Nat}
 
-theorem regMem_exec (hS : Struct reg s) :
-    ∀ t' x, ((exec cfg reg s t).pc t').registered = some x → x ∈ (exec cfg reg s t).items t' := by
+theorem regMem_exec_c (hS : Struct reg s) :
+    ∀ t' x, ((execCancel cfg reg s t).pc t').registered = some x → x ∈ (execCancel cfg reg s t).items t' := by
   have g0 := hS.regMem
   have g0t := hS.regMem t
   have g1 := hS.dyingOk
   have g1t := hS.dyingOk t
   have g2 := hS.bindNotDying
   have g2t := hS.bindNotDying t
-  exec_cases
+  unfold execCancel
+  try unfold walkNext
+  try unfold afterHint
+  try unfold applyReset
+  repeat' split
   all_goals (try rw [‹s.pc t = _›] at g0t)
   all_goals (try simp [Pc.registered, Pc.registered_owns, Pc.owns_bindTarget, Pc.destroying, Pc.bindTarget] at g0t)
   all_goals (try rw [‹s.pc t = _›] at g1t)
@@ -24,8 +28,61 @@ theorem regMem_exec (hS : Struct reg s) :
   all_goals (intro t' x h1; by_cases ht : t' = t <;> first | (subst ht; try simp [upd_apply, afterLists, nextList, Pc.registered, Pc.registered_owns, Pc.owns_bindTarget, Pc.destroying, Pc.bindTarget] at h1 ⊢) | (try simp [ht, upd_apply, afterLists, nextList] at h1 ⊢))
   all_goals grind [Pc.registered, Pc.registered_owns, Pc.owns_bindTarget, Pc.destroying, Pc.bindTarget]
 
+theorem regMem_exec_b (hS : Struct reg s) :
+    ∀ t' x, ((execBind cfg s t).pc t').registered = some x → x ∈ (execBind cfg s t).items t' := by
+  have g0 := hS.regMem
+  have g0t := hS.regMem t
+  have g1 := hS.dyingOk
+  have g1t := hS.dyingOk t
+  have g2 := hS.bindNotDying
+  have g2t := hS.bindNotDying t
+  unfold execBind
+  try unfold walkNext
+  try unfold afterHint
+  try unfold applyReset
+  repeat' split
+  all_goals (try rw [‹s.pc t = _›] at g0t)
+  all_goals (try simp [Pc.registered, Pc.registered_owns, Pc.owns_bindTarget, Pc.destroying, Pc.bindTarget] at g0t)
+  all_goals (try rw [‹s.pc t = _›] at g1t)
+  all_goals (try simp [Pc.registered, Pc.registered_owns, Pc.owns_bindTarget, Pc.destroying, Pc.bindTarget] at g1t)
+  all_goals (try rw [‹s.pc t = _›] at g2t)
+  all_goals (try simp [Pc.registered, Pc.registered_owns, Pc.owns_bindTarget, Pc.destroying, Pc.bindTarget] at g2t)
+  all_goals (intro t' x h1; by_cases ht : t' = t <;> first | (subst ht; try simp [upd_apply, afterLists, nextList, Pc.registered, Pc.registered_owns, Pc.owns_bindTarget, Pc.destroying, Pc.bindTarget] at h1 ⊢) | (try simp [ht, upd_apply, afterLists, nextList] at h1 ⊢))
+  all_goals grind [Pc.registered, Pc.registered_owns, Pc.owns_bindTarget, Pc.destroying, Pc.bindTarget]
+
+theorem regMem_exec_o (hS : Struct reg s) :
+    ∀ t' x, ((execOther s t).pc t').registered = some x → x ∈ (execOther s t).items t' := by
+  have g0 := hS.regMem
+  have g0t := hS.regMem t
+  have g1 := hS.dyingOk
+  have g1t := hS.dyingOk t
+  have g2 := hS.bindNotDying
+  have g2t := hS.bindNotDying t
+  unfold execOther
+  try unfold walkNext
+  try unfold afterHint
+  try unfold applyReset
+  repeat' split
+  all_goals (try rw [‹s.pc t = _›] at g0t)
+  all_goals (try simp [Pc.registered, Pc.registered_owns, Pc.owns_bindTarget, Pc.destroying, Pc.bindTarget] at g0t)
+  all_goals (try rw [‹s.pc t = _›] at g1t)
+  all_goals (try simp [Pc.registered, Pc.registered_owns, Pc.owns_bindTarget, Pc.destroying, Pc.bindTarget] at g1t)
+  all_goals (try rw [‹s.pc t = _›] at g2t)
+  all_goals (try simp [Pc.registered, Pc.registered_owns, Pc.owns_bindTarget, Pc.destroying, Pc.bindTarget] at g2t)
+  all_goals (intro t' x h1; by_cases ht : t' = t <;> first | (subst ht; try simp [upd_apply, afterLists, nextList, Pc.registered, Pc.registered_owns, Pc.owns_bindTarget, Pc.destroying, Pc.bindTarget] at h1 ⊢) | (try simp [ht, upd_apply, afterLists, nextList] at h1 ⊢))
+  all_goals grind [Pc.registered, Pc.registered_owns, Pc.owns_bindTarget, Pc.destroying, Pc.bindTarget]
+
+theorem regMem_exec (hS : Struct reg s) :
+    ∀ t' x, ((exec cfg reg s t).pc t').registered = some x → x ∈ (exec cfg reg s t).items t' := by
+  unfold exec
+  split
+  · exact regMem_exec_c hS
+  · split
+    · exact regMem_exec_b hS
+    · exact regMem_exec_o hS
+
 theorem regMem_begin (hS : Struct reg s) (hi : s.pc t = .idle) :
-    ∀ t' x, ((begin reg s t).pc t').registered = some x → x ∈ (begin reg s t).items t' := by
+    ∀ t' x, ((begin cfg reg s t).pc t').registered = some x → x ∈ (begin cfg reg s t).items t' := by
   have g0 := hS.regMem
   have g0t := hS.regMem t
   have g1 := hS.dyingOk
@@ -42,13 +99,17 @@ theorem regMem_begin (hS : Struct reg s) (hi : s.pc t = .idle) :
   all_goals (intro t' x h1; by_cases ht : t' = t <;> first | (subst ht; try simp [upd_apply, afterLists, nextList, Pc.registered, Pc.registered_owns, Pc.owns_bindTarget, Pc.destroying, Pc.bindTarget] at h1 ⊢) | (try simp [ht, upd_apply, afterLists, nextList] at h1 ⊢))
   all_goals grind [Pc.registered, Pc.registered_owns, Pc.owns_bindTarget, Pc.destroying, Pc.bindTarget]
 
-theorem snapPar_exec (hS : Struct reg s) :
-    ∀ t' p, ((exec cfg reg s t).pc t').snapBranch = some p → (exec cfg reg s t).par p ≠ none := by
+theorem snapPar_exec_c (hS : Struct reg s) :
+    ∀ t' p, ((execCancel cfg reg s t).pc t').snapBranch = some p → (execCancel cfg reg s t).par p ≠ none := by
   have g0 := hS.snapPar
   have g0t := hS.snapPar t
   have g1 := hS.bindAlive
   have g1t := hS.bindAlive t
-  exec_cases
+  unfold execCancel
+  try unfold walkNext
+  try unfold afterHint
+  try unfold applyReset
+  repeat' split
   all_goals (try rw [‹s.pc t = _›] at g0t)
   all_goals (try simp [Pc.snapBranch, Pc.snapBranch_bindParent, Pc.bindParent, okParent] at g0t)
   all_goals (try rw [‹s.pc t = _›] at g1t)
@@ -56,8 +117,53 @@ theorem snapPar_exec (hS : Struct reg s) :
   all_goals (intro t' p h1; by_cases ht : t' = t <;> first | (subst ht; try simp [upd_apply, afterLists, nextList, Pc.snapBranch, Pc.snapBranch_bindParent, Pc.bindParent, okParent] at h1 ⊢) | (try simp [ht, upd_apply, afterLists, nextList] at h1 ⊢))
   all_goals grind [Pc.snapBranch, Pc.snapBranch_bindParent, Pc.bindParent, okParent]
 
+theorem snapPar_exec_b (hS : Struct reg s) :
+    ∀ t' p, ((execBind cfg s t).pc t').snapBranch = some p → (execBind cfg s t).par p ≠ none := by
+  have g0 := hS.snapPar
+  have g0t := hS.snapPar t
+  have g1 := hS.bindAlive
+  have g1t := hS.bindAlive t
+  unfold execBind
+  try unfold walkNext
+  try unfold afterHint
+  try unfold applyReset
+  repeat' split
+  all_goals (try rw [‹s.pc t = _›] at g0t)
+  all_goals (try simp [Pc.snapBranch, Pc.snapBranch_bindParent, Pc.bindParent, okParent] at g0t)
+  all_goals (try rw [‹s.pc t = _›] at g1t)
+  all_goals (try simp [Pc.snapBranch, Pc.snapBranch_bindParent, Pc.bindParent, okParent] at g1t)
+  all_goals (intro t' p h1; by_cases ht : t' = t <;> first | (subst ht; try simp [upd_apply, afterLists, nextList, Pc.snapBranch, Pc.snapBranch_bindParent, Pc.bindParent, okParent] at h1 ⊢) | (try simp [ht, upd_apply, afterLists, nextList] at h1 ⊢))
+  all_goals grind [Pc.snapBranch, Pc.snapBranch_bindParent, Pc.bindParent, okParent]
+
+theorem snapPar_exec_o (hS : Struct reg s) :
+    ∀ t' p, ((execOther s t).pc t').snapBranch = some p → (execOther s t).par p ≠ none := by
+  have g0 := hS.snapPar
+  have g0t := hS.snapPar t
+  have g1 := hS.bindAlive
+  have g1t := hS.bindAlive t
+  unfold execOther
+  try unfold walkNext
+  try unfold afterHint
+  try unfold applyReset
+  repeat' split
+  all_goals (try rw [‹s.pc t = _›] at g0t)
+  all_goals (try simp [Pc.snapBranch, Pc.snapBranch_bindParent, Pc.bindParent, okParent] at g0t)
+  all_goals (try rw [‹s.pc t = _›] at g1t)
+  all_goals (try simp [Pc.snapBranch, Pc.snapBranch_bindParent, Pc.bindParent, okParent] at g1t)
+  all_goals (intro t' p h1; by_cases ht : t' = t <;> first | (subst ht; try simp [upd_apply, afterLists, nextList, Pc.snapBranch, Pc.snapBranch_bindParent, Pc.bindParent, okParent] at h1 ⊢) | (try simp [ht, upd_apply, afterLists, nextList] at h1 ⊢))
+  all_goals grind [Pc.snapBranch, Pc.snapBranch_bindParent, Pc.bindParent, okParent]
+
+theorem snapPar_exec (hS : Struct reg s) :
+    ∀ t' p, ((exec cfg reg s t).pc t').snapBranch = some p → (exec cfg reg s t).par p ≠ none := by
+  unfold exec
+  split
+  · exact snapPar_exec_c hS
+  · split
+    · exact snapPar_exec_b hS
+    · exact snapPar_exec_o hS
+
 theorem snapPar_begin (hS : Struct reg s) (hi : s.pc t = .idle) :
-    ∀ t' p, ((begin reg s t).pc t').snapBranch = some p → (begin reg s t).par p ≠ none := by
+    ∀ t' p, ((begin cfg reg s t).pc t').snapBranch = some p → (begin cfg reg s t).par p ≠ none := by
   have g0 := hS.snapPar
   have g0t := hS.snapPar t
   have g1 := hS.bindAlive
@@ -69,23 +175,72 @@ theorem snapPar_begin (hS : Struct reg s) (hi : s.pc t = .idle) :
   all_goals (try simp [Pc.snapBranch, Pc.snapBranch_bindParent, Pc.bindParent, okParent] at g1t)
   all_goals (intro t' p h1; by_cases ht : t' = t <;> first | (subst ht; try simp [upd_apply, afterLists, nextList, Pc.snapBranch, Pc.snapBranch_bindParent, Pc.bindParent, okParent] at h1 ⊢) | (try simp [ht, upd_apply, afterLists, nextList] at h1 ⊢))
   all_goals grind [Pc.snapBranch, Pc.snapBranch_bindParent, Pc.bindParent, okParent]
+
+theorem rootPar_exec_c (hS : Struct reg s) :
+    ∀ t' p, ((execCancel cfg reg s t).pc t').rootBranch = some p → (execCancel cfg reg s t).par p = none := by
+  have g0 := hS.rootPar
+  have g0t := hS.rootPar t
+  have g1 := hS.bindAlive
+  have g1t := hS.bindAlive t
+  unfold execCancel
+  try unfold walkNext
+  try unfold afterHint
+  try unfold applyReset
+  repeat' split
+  all_goals (try rw [‹s.pc t = _›] at g0t)
+  all_goals (try simp [Pc.rootBranch, Pc.rootBranch_bindParent, Pc.bindParent, okParent] at g0t)
+  all_goals (try rw [‹s.pc t = _›] at g1t)
+  all_goals (try simp [Pc.rootBranch, Pc.rootBranch_bindParent, Pc.bindParent, okParent] at g1t)
+  all_goals (intro t' p h1; by_cases ht : t' = t <;> first | (subst ht; try simp [upd_apply, afterLists, nextList, Pc.rootBranch, Pc.rootBranch_bindParent, Pc.bindParent, okParent] at h1 ⊢) | (try simp [ht, upd_apply, afterLists, nextList] at h1 ⊢))
+  all_goals grind [Pc.rootBranch, Pc.rootBranch_bindParent, Pc.bindParent, okParent]
+
+theorem rootPar_exec_b (hS : Struct reg s) :
+    ∀ t' p, ((execBind cfg s t).pc t').rootBranch = some p → (execBind cfg s t).par p = none := by
+  have g0 := hS.rootPar
+  have g0t := hS.rootPar t
+  have g1 := hS.bindAlive
+  have g1t := hS.bindAlive t
+  unfold execBind
+  try unfold walkNext
+  try unfold afterHint
+  try unfold applyReset
+  repeat' split
+  all_goals (try rw [‹s.pc t = _›] at g0t)
+  all_goals (try simp [Pc.rootBranch, Pc.rootBranch_bindParent, Pc.bindParent, okParent] at g0t)
+  all_goals (try rw [‹s.pc t = _›] at g1t)
+  all_goals (try simp [Pc.rootBranch, Pc.rootBranch_bindParent, Pc.bindParent, okParent] at g1t)
+  all_goals (intro t' p h1; by_cases ht : t' = t <;> first | (subst ht; try simp [upd_apply, afterLists, nextList, Pc.rootBranch, Pc.rootBranch_bindParent, Pc.bindParent, okParent] at h1 ⊢) | (try simp [ht, upd_apply, afterLists, nextList] at h1 ⊢))
+  all_goals grind [Pc.rootBranch, Pc.rootBranch_bindParent, Pc.bindParent, okParent]
+
+theorem rootPar_exec_o (hS : Struct reg s) :
+    ∀ t' p, ((execOther s t).pc t').rootBranch = some p → (execOther s t).par p = none := by
+  have g0 := hS.rootPar
+  have g0t := hS.rootPar t
+  have g1 := hS.bindAlive
+  have g1t := hS.bindAlive t
+  unfold execOther
+  try unfold walkNext
+  try unfold afterHint
+  try unfold applyReset
+  repeat' split
+  all_goals (try rw [‹s.pc t = _›] at g0t)
+  all_goals (try simp [Pc.rootBranch, Pc.rootBranch_bindParent, Pc.bindParent, okParent] at g0t)
+  all_goals (try rw [‹s.pc t = _›] at g1t)
+  all_goals (try simp [Pc.rootBranch, Pc.rootBranch_bindParent, Pc.bindParent, okParent] at g1t)
+  all_goals (intro t' p h1; by_cases ht : t' = t <;> first | (subst ht; try simp [upd_apply, afterLists, nextList, Pc.rootBranch, Pc.rootBranch_bindParent, Pc.bindParent, okParent] at h1 ⊢) | (try simp [ht, upd_apply, afterLists, nextList] at h1 ⊢))
+  all_goals grind [Pc.rootBranch, Pc.rootBranch_bindParent, Pc.bindParent, okParent]
 
 theorem rootPar_exec (hS : Struct reg s) :
     ∀ t' p, ((exec cfg reg s t).pc t').rootBranch = some p → (exec cfg reg s t).par p = none := by
-  have g0 := hS.rootPar
-  have g0t := hS.rootPar t
-  have g1 := hS.bindAlive
-  have g1t := hS.bindAlive t
-  exec_cases
-  all_goals (try rw [‹s.pc t = _›] at g0t)
-  all_goals (try simp [Pc.rootBranch, Pc.rootBranch_bindParent, Pc.bindParent, okParent] at g0t)
-  all_goals (try rw [‹s.pc t = _›] at g1t)
-  all_goals (try simp [Pc.rootBranch, Pc.rootBranch_bindParent, Pc.bindParent, okParent] at g1t)
-  all_goals (intro t' p h1; by_cases ht : t' = t <;> first | (subst ht; try simp [upd_apply, afterLists, nextList, Pc.rootBranch, Pc.rootBranch_bindParent, Pc.bindParent, okParent] at h1 ⊢) | (try simp [ht, upd_apply, afterLists, nextList] at h1 ⊢))
-  all_goals grind [Pc.rootBranch, Pc.rootBranch_bindParent, Pc.bindParent, okParent]
+  unfold exec
+  split
+  · exact rootPar_exec_c hS
+  · split
+    · exact rootPar_exec_b hS
+    · exact rootPar_exec_o hS
 
 theorem rootPar_begin (hS : Struct reg s) (hi : s.pc t = .idle) :
-    ∀ t' p, ((begin reg s t).pc t').rootBranch = some p → (begin reg s t).par p = none := by
+    ∀ t' p, ((begin cfg reg s t).pc t').rootBranch = some p → (begin cfg reg s t).par p = none := by
   have g0 := hS.rootPar
   have g0t := hS.rootPar t
   have g1 := hS.bindAlive
@@ -98,19 +253,62 @@ theorem rootPar_begin (hS : Struct reg s) (hi : s.pc t = .idle) :
   all_goals (intro t' p h1; by_cases ht : t' = t <;> first | (subst ht; try simp [upd_apply, afterLists, nextList, Pc.rootBranch, Pc.rootBranch_bindParent, Pc.bindParent, okParent] at h1 ⊢) | (try simp [ht, upd_apply, afterLists, nextList] at h1 ⊢))
   all_goals grind [Pc.rootBranch, Pc.rootBranch_bindParent, Pc.bindParent, okParent]
 
-theorem createdLst_exec (hS : Struct reg s) :
-    ∀ x, (exec cfg reg s t).cst x = .created → (exec cfg reg s t).lst x = none := by
+theorem createdLst_exec_c (hS : Struct reg s) :
+    ∀ x, (execCancel cfg reg s t).cst x = .created → (execCancel cfg reg s t).lst x = none := by
   have g0 := hS.createdLst
   have g1 := hS.ownsSt
   have g1t := hS.ownsSt t
-  exec_cases
+  unfold execCancel
+  try unfold walkNext
+  try unfold afterHint
+  try unfold applyReset
+  repeat' split
   all_goals (try rw [‹s.pc t = _›] at g1t)
   all_goals (try simp [Pc.owns] at g1t)
   all_goals (intro x h1; try simp [upd_apply, afterLists, nextList] at h1 ⊢)
   all_goals grind [Pc.owns]
 
+theorem createdLst_exec_b (hS : Struct reg s) :
+    ∀ x, (execBind cfg s t).cst x = .created → (execBind cfg s t).lst x = none := by
+  have g0 := hS.createdLst
+  have g1 := hS.ownsSt
+  have g1t := hS.ownsSt t
+  unfold execBind
+  try unfold walkNext
+  try unfold afterHint
+  try unfold applyReset
+  repeat' split
+  all_goals (try rw [‹s.pc t = _›] at g1t)
+  all_goals (try simp [Pc.owns] at g1t)
+  all_goals (intro x h1; try simp [upd_apply, afterLists, nextList] at h1 ⊢)
+  all_goals grind [Pc.owns]
+
+theorem createdLst_exec_o (hS : Struct reg s) :
+    ∀ x, (execOther s t).cst x = .created → (execOther s t).lst x = none := by
+  have g0 := hS.createdLst
+  have g1 := hS.ownsSt
+  have g1t := hS.ownsSt t
+  unfold execOther
+  try unfold walkNext
+  try unfold afterHint
+  try unfold applyReset
+  repeat' split
+  all_goals (try rw [‹s.pc t = _›] at g1t)
+  all_goals (try simp [Pc.owns] at g1t)
+  all_goals (intro x h1; try simp [upd_apply, afterLists, nextList] at h1 ⊢)
+  all_goals grind [Pc.owns]
+
+theorem createdLst_exec (hS : Struct reg s) :
+    ∀ x, (exec cfg reg s t).cst x = .created → (exec cfg reg s t).lst x = none := by
+  unfold exec
+  split
+  · exact createdLst_exec_c hS
+  · split
+    · exact createdLst_exec_b hS
+    · exact createdLst_exec_o hS
+
 theorem createdLst_begin (hS : Struct reg s) (hi : s.pc t = .idle) :
-    ∀ x, (begin reg s t).cst x = .created → (begin reg s t).lst x = none := by
+    ∀ x, (begin cfg reg s t).cst x = .created → (begin cfg reg s t).lst x = none := by
   have g0 := hS.createdLst
   have g1 := hS.ownsSt
   have g1t := hS.ownsSt t
